@@ -46,7 +46,8 @@ def canon(obj):
     if attrs.has(type(obj)):
         return {
             "!cls": type(obj).__name__,
-            **{a.name: canon(getattr(obj, a.name)) for a in attrs.fields(type(obj))},
+            # fields the class itself excludes from equality (eq=False) are informational
+            **{a.name: canon(getattr(obj, a.name)) for a in attrs.fields(type(obj)) if a.eq},
         }
     return {"!obj": type(obj).__name__}
 
